@@ -26,8 +26,13 @@ def run(rep, tier):
     from . import c04, c08
     common.guarded(rep, "C04.5", c04.c04_5, rep, ix, M.G)       # p-names filtered out of the published parameters
     common.guarded(rep, "C15.3", c15_3, rep, ix)
-    from . import tser
-    tser.c15_4(rep, ix, M)
+    from . import tser, c05
+    common.guarded(rep, "C15.4", tser.c15_4, rep, ix, M)
+    # array arguments that are not p-arrays are passed by value: one fresh hoisted declaration per array value (shared with C01.5)
+    from ..py.templates import Lang
+    rep.rule("C15.5", "array values are hoisted into declarations of their own (never replaced by a reference to another variable)", floor=5)
+    common.guarded(rep, "C15.5", tser.arrays, rep, "C15.5", ix, M, Lang(M.G))
+    c05.shared_tables(rep, ix, M.G)
 
 
 def pkg_globals_atom(ix, mod):
@@ -155,11 +160,12 @@ def c15_2(rep, ix):
     if len(tests) != 1:
         # a membership test against something derived from _PARAMS (e.g. their names) is a different predicate
         derived = [n for n in walk_shallow(en) if isinstance(n, ast.If) and "_PARAMS" in u(n.test)]
-        if derived:
-            rep.bad(R, ix.site(e, derived[0]), "the evaluator tests `<name> in _PARAMS` (string names are only equal to registered p-array names, never to parameter symbols)",
-                    "tests `%s`: a variable named like a template parameter is treated as a p-array" % " ".join(u(derived[0].test).split()), key="eval test")
-            return
-        raise Inconclusive("_expression: p-array test not recognised")
+        branch = [n for n in walk_shallow(en) if isinstance(n, ast.If) and "VariableLabelContext" in u(n.test)]
+        rep.bad(R, ix.site(e, derived[0] if derived else (branch[0] if branch else en)),
+                "the evaluator tests `<name> in _PARAMS` on the parameter table itself (string names are only equal to registered p-array names, never to parameter symbols)",
+                ("tests `%s`: a variable named like a template parameter is treated as a p-array" % " ".join(u(derived[0].test).split())) if derived else
+                "no direct membership test on the table: registration and lookup can get out of step (stale or derived copies)", key="eval test")
+        return
     t = tests[0]
     key = resolved_text(en, t.test.left, t)
     rep.check(key == "expr.getText()", R, ix.site(e, t), "the tested key is the variable's own text (a str)", "key `%s`" % key, key="eval key")
